@@ -54,7 +54,7 @@ OutFormat(spell) ==
   CASE spell \in {"hex6", "hex3", "hexnohash", "hexupper"} -> "hex"
     [] spell \in {"rgbfn", "rgbpct"} -> "rgbfn"
     [] spell = "hslfn" -> "hslfn"
-    [] spell \in {"tuple", "list"} -> "tuple"
+    [] spell \in {"tuple", "list", "tuplesub", "listsub"} -> "tuple"      \* subclasses (named tuples ...) are tuples / lists
     [] spell \in {"named", "rgbafn", "hslafn", "rgbatuple"} -> "hex"
     [] OTHER -> "other"
 ====
